@@ -905,6 +905,42 @@ pub struct Phys {
     pub classes: Vec<String>,
 }
 
+impl Phys {
+    /// which edges are given `Some(mass)` at sampling time: the graph's mass flags unless the case carries a class
+    /// "mass-given:<bits>" (edge data that contradicts the flags the sampler was built with)
+    pub fn mass_given(&self) -> Vec<bool> {
+        for c in &self.classes {
+            if let Some(b) = c.strip_prefix("mass-given:") {
+                if let Ok(bits) = u64::from_str_radix(b, 2) {
+                    return (0..self.g.nedges()).map(|e| bits >> e & 1 == 1).collect();
+                }
+            }
+        }
+        self.g.massive.clone()
+    }
+}
+/// in place: let the run-time edge data contradict the mass flags of the graph (a massless-flagged edge is given a mass,
+/// a massive-flagged edge none); the oracle masses follow the edge data
+pub fn contradict_mass_flags(t: &mut Tape, p: &mut Phys) {
+    let ne = p.g.nedges();
+    let mut bits = 0u64;
+    let mut changed = false;
+    for e in 0..ne {
+        let flip = t.chance(0.4);
+        let given = p.g.massive[e] != flip;
+        if given {
+            bits |= 1 << e;
+        }
+        if flip {
+            changed = true;
+            p.kin.masses[e] = if given { t.uniform(0.3, 2.0) } else { 0.0 };
+        }
+    }
+    if changed {
+        p.classes.push(format!("mass-given:{bits:b}"));
+    }
+}
+
 pub struct PhysOpts {
     pub max_e: usize,
     pub max_l: usize,
